@@ -124,6 +124,8 @@ Inductive aclass :=
 | AViewerReportFalse       (* report view calls an item excluded that is approved (the uploader sends it) *)
 | AViewerReportStackOmitted  (* report view does not mention an unapproved stack counter of a report (fixed: a1becfe) *)
 | AViewerChart             (* Charts section: "not present in the telemetry config" <> no configured counter belongs to the chart *)
+| AServerStoresOutside     (* the object stored for a request holds (read as text) a build/counter/stack outside the
+                              configuration or members outside the report format, or is stored although refused *)
 | AViewerChartStack.       (* ... for a chart of an approved STACK counter (charts not consulting the configured stacks; fixed: c8e437d) *)
 
 (* server side: report r (produced by the uploader iff from_uploader) got verdict v *)
@@ -313,3 +315,21 @@ Definition viewer_chart_check (u : upload_cfg) (files : list cfile) (prog name :
   else if negb active && approved_stack then [AViewerChartStack]
   else if active && negb (chart_listedb u prog name) then [AViewerChart]   (* called present, yet nothing configured belongs to it *)
   else [].
+
+(* ---------------------------------------------------------------- what the upload handler stores *)
+
+(* handleUpload: an accepted report is written to the bucket by ENCODING THE
+   DECODED REPORT again (json.NewEncoder(f).Encode(report)), never by copying
+   the request body; a refused one stores nothing. *)
+Definition server_store (c : config) (semver_ok : bool) (r : report) : option report :=
+  match server_validate c semver_ok r with VOk => Some r | _ => None end.
+
+(* oracle: `accepted` = the handler answered 200; `stored` = the stored object
+   read as TEXT (of a duplicated member the first occurrence, duplicated
+   Programs arrays merged), None when nothing was stored; `extra` = the text
+   has members outside the report format *)
+Definition stored_check (u : upload_cfg) (accepted : bool) (stored : option report) (extra : bool) : list aclass :=
+  match stored with
+  | Some s => if accepted && report_withinb u s && negb extra then [] else [AServerStoresOutside]
+  | None => if accepted then [AServerStoresOutside] else []
+  end.
